@@ -108,7 +108,7 @@ func scenBlock(rng *rand.Rand, tr *sim.Trace, seg int, events int) {
 			h.setBlock(blocked.Clone())
 		}
 		src := pool[rng.Intn(len(pool))]
-		switch rng.Intn(10) {
+		switch rng.Intn(11) {
 		case 0, 1, 2, 3: // inbound query
 			m := methods[rng.Intn(6)]
 			id, ih := randID(rng), randID(rng)
@@ -170,6 +170,32 @@ func scenBlock(rng *rand.Rand, tr *sim.Trace, seg int, events int) {
 				}
 				h.flush(true)
 			}
+		case 10: // a query with retries to a silent node whose address is blocklisted between two tries
+			if h.dropped(src) {
+				continue
+			}
+			atomic.StoreInt64(&h.resendNs, int64(20*time.Millisecond))
+			c := h.call(src, "ping", dht.QueryInput{NumTries: 3})
+			if !h.conn.WaitOut(1, 60*time.Second) {
+				fail("query with retries never written")
+			}
+			h.flush(false)
+			nb := h.o.block.Clone()
+			if nb == nil {
+				nb = sim.BlockSet{}
+			}
+			nb.Add(src.IP)
+			h.setBlock(nb)
+			time.Sleep(120 * time.Millisecond) // the remaining tries fall due
+			atomic.StoreInt64(&h.resendNs, 0)
+			h.flush(false)
+			if !h.ret(c, 0) {
+				h.cancelCall(c)
+				if !h.ret(c, 60*time.Second) {
+					fail("cancelled query did not return")
+				}
+			}
+			h.flush(true)
 		case 7: // AddNode with a zero ID pings the address
 			h.srv.AddNode(krpc.NodeInfo{Addr: krpc.NodeAddr{IP: src.IP, Port: src.Port}})
 			time.Sleep(2 * time.Millisecond)
@@ -417,15 +443,24 @@ func cloneDict(d *sim.Dict) *sim.Dict {
 	return v.(*sim.Dict)
 }
 
+// hostileSlow: replies wait for a budget of one token per 4 s (srv -mode hostileslow, its own process: the waiting
+// reply goroutines outlive the scenario)
+var hostileSlow bool
+
 func scenHostile(rng *rand.Rand, tr *sim.Trace, seg int, events int) {
 	o := opts{burst: -1, passive: rng.Intn(6) == 0, hook: rng.Intn(3) == 0, peerstore: rng.Intn(2) == 0, announcecb: rng.Intn(2) == 0,
 		secure: rng.Intn(2) == 0, resend: func() time.Duration { return 20 * time.Millisecond }}
+	slow := hostileSlow
+	if slow {
+		// replies wait for a send budget that refills very slowly: the node must go on serving meanwhile
+		o.wait, o.burst, o.slowRate = true, 1, true
+	}
 	entry := v4(47, 1, 1, 1, 7001)
 	o.startingNodes = func() ([]dht.Addr, error) { return []dht.Addr{dht.NewAddr(entry)}, nil }
 	h := newH(rng, tr, seg, o)
 	defer h.close()
 	// a reachable, non-empty state first: contacts in the table, peers announced, an item stored
-	if rng.Intn(3) != 0 {
+	if rng.Intn(3) != 0 && !slow {
 		for i := 0; i < 6; i++ {
 			src := h.randSrc()
 			wid := randID(rng)
@@ -559,7 +594,7 @@ func scenHostile(rng *rand.Rand, tr *sim.Trace, seg int, events int) {
 	for _, c := range cancels {
 		c()
 	}
-	if !sim.WaitQuiet(60 * time.Second) {
+	if !slow && !sim.WaitQuiet(60*time.Second) { // (with the slow budget, replies legitimately keep waiting)
 		fail("reply goroutines did not finish after hostile traffic")
 	}
 	h.conn.TakeAll()
@@ -569,8 +604,8 @@ func scenHostile(rng *rand.Rand, tr *sim.Trace, seg int, events int) {
 	pid := randID(rng)
 	answered := false
 	if h.conn.Inject((&query{method: "ping", t: t, hasA: true, id: pid, port: -1}).encode(), probe, 10*time.Second) {
-		if h.o.passive {
-			answered = true // a passive node answers nobody; the read loop coming back is the observation
+		if h.o.passive || slow {
+			answered = true // a passive node answers nobody, a node out of budget not yet; the read loop coming back is the observation
 		} else {
 			deadline := time.Now().Add(30 * time.Second)
 			for !answered && time.Now().Before(deadline) {
